@@ -2,6 +2,10 @@ package keeper
 
 import (
 	"fmt"
+	sdk "github.com/cosmos/cosmos-sdk/types"
+	banktypes "github.com/cosmos/cosmos-sdk/x/bank/types"
+	"github.com/ethereum/go-ethereum/common"
+	erc20types "github.com/functionx/fx-core/v8/x/erc20/types"
 
 	sdkmath "cosmossdk.io/math"
 
@@ -119,6 +123,62 @@ func VerifC17ProposalOracles() {
 		if len(st.Recs) == len(first) {
 			for i := range first {
 				rt.Assert(st.Recs[i].Delegator == first[i].Delegator, "staking messages issued in identical order under every map order")
+			}
+		}
+	}
+	rt.SetMapOrder(false)
+}
+
+// VerifC17OutgoingBridgeCallTokens: an outgoing bridge call carrying two different bridged tokens
+// is built on two branches of the same state under both map iteration orders; the stored record
+// (token list order included: it is hashed into the application state and into the checkpoint the
+// oracles sign) must be the same.
+func VerifC17OutgoingBridgeCallTokens() {
+	e := verifBridgeState()
+	e.k.SetLastObservedBlockHeight(e.ctx, 1000, 90)
+	// a second bridged token, registered like the first
+	base2, erc2 := "fxusd", common.HexToAddress("0x00000000000000000000000000000000000000c2")
+	if err := e.k.AddBridgeTokenExecuted(e.ctx, &types.MsgBridgeTokenClaim{TokenContract: verifTokenB, Name: "FX USD", Symbol: "FXUSD", Decimals: 6, ChainName: verifModule}); err != nil {
+		panic(err)
+	}
+	bridgeDenom2 := types.NewBridgeDenom(verifModule, verifTokenB)
+	e.bank.SetDenomMetaData(e.ctx, banktypes.Metadata{Base: base2, Display: base2, Name: "FX USD", Symbol: "FXUSD",
+		DenomUnits: []*banktypes.DenomUnit{{Denom: base2, Exponent: 0, Aliases: []string{bridgeDenom2}}}})
+	e.ek.SetAliasesDenom(e.ctx, base2, bridgeDenom2)
+	e.ek.AddTokenPair(e.ctx, erc20types.TokenPair{Erc20Address: erc2.Hex(), Denom: base2, Enabled: true, ContractOwner: erc20types.OWNER_MODULE})
+	e.evm.Contracts = append(e.evm.Contracts, erc2)
+	module := models.ModuleAddress(verifModule)
+	a1, a2 := verifAmt("amount.usdt", 64), verifAmt("amount.fxusd", 64)
+	rt.Assume(rt.And(a1.IsPositive(), a2.IsPositive()))
+	e.bank.SetBalance(verifUser1, verifBase, a1)
+	e.bank.SetBalance(verifUser1, base2, a2)
+	e.bank.SetBalance(module, e.bridgeDenom, a1)
+	e.bank.SetBalance(module, bridgeDenom2, a2)
+	sender := common.BytesToAddress(verifUser1)
+	var first *types.OutgoingBridgeCall
+	for run := 0; run < rt.Repeats(); run++ {
+		rt.SetMapOrder(run%2 == 1)
+		cctx, _ := e.ctx.CacheContext()
+		nonce, err := e.k.AddOutgoingBridgeCall(cctx, sender, sender, sdk.NewCoins(sdk.NewCoin(base2, a2), sdk.NewCoin(verifBase, a1)), common.HexToAddress(verifTargetContract), nil, nil, 0)
+		if err != nil {
+			rt.Cover("call-refused")
+			rt.SetMapOrder(false)
+			return
+		}
+		call, found := e.k.GetOutgoingBridgeCallByNonce(cctx, nonce)
+		if !found {
+			rt.Assert(false, "the call is on record")
+			return
+		}
+		if run == 0 {
+			first = call
+			rt.Cover("computed")
+			continue
+		}
+		rt.Assert(len(call.Tokens) == len(first.Tokens), "same number of tokens under every map order")
+		if len(call.Tokens) == len(first.Tokens) {
+			for i := range call.Tokens {
+				rt.Assert(rt.And(call.Tokens[i].Contract == first.Tokens[i].Contract, call.Tokens[i].Amount.Equal(first.Tokens[i].Amount)), "the token list of the stored call is in the same order under every map order")
 			}
 		}
 	}
